@@ -48,6 +48,16 @@ def St.hasher (st : St) : Hasher :=
     val := fun stream => (st.valTab.lookup stream).getD missing
     words := fun ws => (st.wordsTab.lookup ws).getD missing }
 
+/-- byte-wise lexicographic `≤` — Rust's `String::cmp` on the UTF-8 bytes -/
+def bytesLe : List Nat → List Nat → Bool
+  | [], _ => true
+  | _ :: _, [] => false
+  | x :: xs, y :: ys => if x < y then true else if y < x then false else bytesLe xs ys
+
+/-- the key order of `get_keys_in_buckets`, on key codes (NOT the order of the codes, which is
+    length-first) -/
+def keyLe (a b : Nat) : Bool := bytesLe (keyDecode a) (keyDecode b)
+
 def slotTok : P Bool := do
   let t ← tok
   if t == "a" then pure true else if t == "b" then pure false else failure
@@ -122,11 +132,11 @@ def cmd (st : St) : P (St × String) := do
     let nb ← nat
     let bs ← repeatP nb nat
     let s := st.slot isA
-    let ks := getKeysInBuckets st.hasher currentStream s.depth limit s.order s.state bs
+    let ks := getKeysInBuckets (arrangeOf currentSimOrder keyLe) st.hasher currentStream s.depth limit s.order s.state bs
     pure (st, " ".intercalate ("g" :: ks.map (fun p => showKey p.1)))
   | "SYNC" => do
     let limit ← nat
-    let (a', b') := syncRound st.hasher st.a.depth limit st.a.order st.b.order st.a.state st.b.state
+    let (a', b') := syncRound keyLe st.hasher st.a.depth limit st.a.order st.b.order st.a.state st.b.state
     let st' := { st with a := { st.a with state := a', order := NMap.keys a' },
                          b := { st.b with state := b', order := NMap.keys b' } }
     pure (st', showState "a" a' ++ " | " ++ showState "b" b')
